@@ -366,3 +366,44 @@ func VerifC13_ExponentRange() {
 		zzverif.Assert(M.Eq(NAT.MulPow10(-sh)), "denoted magnitude equals the text's")
 	}
 }
+
+// VerifC13_CompareLong: concrete long operands - 19 to 21 digit integer parts
+// around 2^63, 2^64 and 10^20, also written with exponents - against each
+// other and against the same values +-1: Cmp and the predicates agree with
+// exact integer arithmetic (the short symbolic operands of VerifC13_Compare
+// never leave the range of a machine word).
+func VerifC13_CompareLong() {
+	zzverif.Expect("lt", "eq", "gt")
+	texts := []string{
+		"18446744073709551615", "18446744073709551616", "18446744073709551614", "9223372036854775807", "9223372036854775808",
+		"99999999999999999999", "20000000000000000000", "2E+19", "2e19", "1.8446744073709551615e19", "100000000000000000000", "1e20", "99999999999999999999.5",
+		"10000000000000000000", "9999999999999999999", "-18446744073709551616", "-2E+19", "-99999999999999999999",
+	}
+	ta := texts[zzverif.IntRange("a", 0, len(texts)-1)]
+	tb := texts[zzverif.IntRange("b", 0, len(texts)-1)]
+	a, ea := NewNumber(bytes.NewBytes(ta))
+	b, eb := NewNumber(bytes.NewBytes(tb))
+	zzverif.Assert(ea == nil && eb == nil, "long numbers are accepted")
+	if ea != nil || eb != nil {
+		return
+	}
+	A := zzverif.IntOfDigits(a.nat.Data()).MulPow10(b.exp)
+	B := zzverif.IntOfDigits(b.nat.Data()).MulPow10(a.exp)
+	if a.neg {
+		A = A.Neg()
+	}
+	if b.neg {
+		B = B.Neg()
+	}
+	want := sign3(A.Lt(B), A.Eq(B))
+	zzverif.Assert(a.Cmp(b) == want, "Cmp agrees with exact integer arithmetic on long operands")
+	zzverif.Assert(a.Equal(b) == (want == 0) && a.LessThan(b) == (want < 0) && a.GreaterThan(b) == (want > 0), "the predicates agree with Cmp")
+	switch want {
+	case -1:
+		zzverif.Reach("lt")
+	case 0:
+		zzverif.Reach("eq")
+	default:
+		zzverif.Reach("gt")
+	}
+}
